@@ -136,3 +136,21 @@ Theorem honest_points_valid :
   forall qq a j, a <> [] -> valid_g2 qq j (eval qq a j) a = true.
 Proof. exact Proofs.C01.honest_points_valid. Qed.
 Print Assumptions honest_points_valid.
+
+(* one sending step of [run] ([exchange], phases 1,3,4,7,8,10): a message published by a live
+   honest member reaches the inbox of every live honest member that accepts the sender, under any
+   adversary messages and any permutation arrival order, and (single-message phases) that receiver
+   does not mark the sender inactive at the start of the next phase *)
+Theorem exchange_delivers_partial :
+  forall c sc p f adv sts sd rc x,
+    In sd sts -> In rc sts ->
+    failed sd = false -> failed (fst (f sd)) = false -> In x (snd (f sd)) ->
+    failed rc = false -> failed (fst (f rc)) = false ->
+    kind_ok p x = true ->
+    is_perm (length (published c f adv sts))
+            (order_for sc (me (fst (f rc))) p (length (published c f adv sts))) = true ->
+    accepts c (fst (f rc)) (msg_sender x) (msg_sess x) (from_key (wrap c x)) = true ->
+    exists rc', In rc' (exchange c sc p f adv sts) /\ me rc' = me (fst (f rc)) /\ inbox_has x rc'
+                /\ (p <> 3 -> ~ In (msg_sender x) (ia (mark_inactive c (actives p rc') rc'))).
+Proof. exact Proofs.C01.exchange_delivers. Qed.
+Print Assumptions exchange_delivers_partial.
